@@ -2,7 +2,7 @@
    Only statements closed by [exact]; the lemmas live in Proofs/Paging.v.
    Constants (defaultMaxMetadataBytes, filter names) are Generated/GC15.v,
    re-translated from registry/remote on every run. *)
-From Oras Require Import Base.Prelude Generated.GC15 Model.Paging Proofs.Paging.
+From Oras Require Import Base.Prelude Generated.GC15 Model.Paging Model.PagingUrl Model.PagingJson Proofs.Paging Proofs.PagingUrl Proofs.PagingFacts Proofs.PagingJson.
 From Coq Require Import Permutation Sorted.
 
 (* parseLink returns exactly the text between '<' and the first '>' whatever follows *)
@@ -498,3 +498,414 @@ Example C15_example_limit_listing :
                 (fun _ => false) (ex_cfg KTags) 9 0 0 (mkUrl (b "/v2/r/tags/list") []) [] in
   t_out t = ErrDecode /\ map (map fst) (t_pages t) = [[b "a"]] /\ length (t_reqs t) = 2%nat.
 Proof. vm_compute. repeat split. Qed.
+
+(* ---------- the string level: net/url, setQueryParams, escaping (Model/PagingUrl.v) ---------- *)
+
+(* url.QueryUnescape undoes url.QueryEscape on every byte string *)
+Theorem C15_escape_roundtrip :
+  forall s, Forall byte_ok s -> query_unescape (query_escape s) = Some s.
+Proof. exact escape_roundtrip. Qed.
+Print Assumptions C15_escape_roundtrip.
+
+(* setQueryParams: every parameter that is not set is forwarded byte for byte and in order
+   (also one that url.ParseQuery would reject), the set ones follow *)
+Theorem C15_set_query_params_verbatim :
+  forall raw kvs, Forall kv_ok kvs ->
+    raw_params (set_query_params raw kvs) =
+    filter (fun p => not_set kvs (param_key p)) (raw_params raw) ++ map new_param kvs.
+Proof. exact set_query_params_verbatim. Qed.
+Print Assumptions C15_set_query_params_verbatim.
+
+(* ... and a registry reading the result finds the other parameters as before and the new values *)
+Theorem C15_set_query_params_read :
+  forall raw kvs, Forall kv_ok kvs ->
+    parse_query_lenient (set_query_params raw kvs) =
+    filter (fun kv' => not_set kvs (fst kv')) (parse_query_lenient raw) ++ kvs.
+Proof. exact set_query_params_spec. Qed.
+Print Assumptions C15_set_query_params_read.
+
+(* the raw request the client sends refines the association-list request of Model/Paging.v:
+   whatever key a registry looks up, it reads what [mk_request] says *)
+Theorem C15_request_query_refines :
+  forall c p raw q last, Forall byte_ok last -> repr raw q ->
+    repr (request_query c raw last) (u_query (mk_request c (mkUrl p q) last)).
+Proof. exact request_query_refines. Qed.
+Print Assumptions C15_request_query_refines.
+
+(* net/url reference resolution (URL.Parse + ResolveReference as modelled) sends each of the
+   link forms </path?q>, <?q>, <http://host/path?q>, <//host/path?q> -- followed by anything
+   after '>' -- to the intended path and raw query; the next request is that path with n set *)
+Theorem C15_next_request_link_forms :
+  forall c base P segs Q t trailer hc ht,
+    link_form base P Q t ->
+    clean_path P segs -> forallb path_char P = true -> forallb query_char Q = true ->
+    s_host base = hc :: ht -> forallb host_char (s_host base) = true -> host_ok (s_host base) = true ->
+    link_ok t -> contains c_gt t = false ->
+    next_request c base (c_lt :: t ++ c_gt :: trailer) = NNext P (request_query c Q []).
+Proof. exact next_request_link_forms. Qed.
+Print Assumptions C15_next_request_link_forms.
+
+(* a clean path is a fixed point of net/url's dot-segment removal *)
+Theorem C15_resolve_path_clean :
+  forall P segs, clean_path P segs -> resolve_path P [] = P.
+Proof. exact resolve_path_clean. Qed.
+Print Assumptions C15_resolve_path_clean.
+
+Example C15_example_string_step :
+  let base := mkS (b "http") (b "reg.test") (b "/v2/repo/tags/list") (b "n=2&last=a") in
+  next_request (mkCfg KTags 2 0 []) base (b "<?last=b&tok=x;y>; rel=""next""")
+    = NNext (b "/v2/repo/tags/list") (b "last=b&tok=x;y&n=2") /\
+  next_request (mkCfg KTags 0 0 []) base (b "<./list/~p?token=p%3Bb>")
+    = NNext (b "/v2/repo/tags/list/~p") (b "token=p%3Bb") /\
+  first_query (mkCfg KTags 3 0 []) [] (b "a b/c") = b "n=3&last=a+b%2Fc".
+Proof. vm_compute. repeat split. Qed.
+
+(* the syntactic facts about the Go sources the models assume (translator kind c15_srcfact) *)
+Theorem C15_source_facts :
+  c15_fact_link_header && c15_fact_link_resolve && c15_fact_setq_split && c15_fact_setq_cut &&
+  c15_fact_tags_clear_last && c15_fact_repos_clear_last && c15_fact_refs_nonempty &&
+  c15_fact_wrap_delivered && c15_fact_tagschema_clean && c15_fact_probe_contentlength &&
+  c15_fact_oci_last && c15_fact_oci_sort = true.
+Proof. exact (eq_refl true). Qed.
+
+(* a registry that writes its link query by escaping is read back exactly *)
+Theorem C15_parse_enc_pairs :
+  forall l, Forall kv_ok l -> parse_query_lenient (enc_pairs l) = l.
+Proof. exact parse_enc_pairs. Qed.
+Print Assumptions C15_parse_enc_pairs.
+
+(* one step end to end: a link in one of the four forms to (P, escaped q') makes the string
+   level send a request to P whose raw query represents the model's request for (P, q') *)
+Theorem C15_step_simulation :
+  forall c base P segs q' t trailer hc ht,
+    let Q := enc_pairs (shown q') in
+    link_form base P Q t -> query_ok q' ->
+    clean_path P segs -> forallb path_char P = true ->
+    s_host base = hc :: ht -> forallb host_char (s_host base) = true -> host_ok (s_host base) = true ->
+    link_ok t -> contains c_gt t = false ->
+    exists raw, next_request c base (c_lt :: t ++ c_gt :: trailer) = NNext P raw /\
+                repr raw (u_query (mk_request c (mkUrl P q') [])).
+Proof. exact step_simulation. Qed.
+Print Assumptions C15_step_simulation.
+
+(* all histories: the page loop on strings (raw queries, setQueryParams, net/url as modelled)
+   refines the page loop on association lists -- same pages, same outcome, pairwise
+   indistinguishable requests -- for any server answering indistinguishable requests alike and
+   any links that net/url resolves like the abstract resolver *)
+Theorem C15_string_loop_refines :
+  forall (sch host : str) (serve_s : nat -> sreq -> response) (serve : nat -> url -> response)
+         (resolve : url -> str -> option url) (cb_fail : nat -> bool) (c : cfg),
+    (forall i rs rq, same_request rs rq -> serve_s i rs = serve i rq) ->
+    (forall i rs rq t, same_request rs rq -> parse_link (rs_link (serve i rq)) = LTarget t ->
+       match resolve_ref (mkS sch host (sr_path rs) (sr_query rs)) t, resolve rq t with
+       | ROk u, Some u' => s_path u <> [] /\ s_path u = u_path u' /\ repr (s_query u) (u_query u')
+       | RErr, None => True
+       | _, _ => False
+       end) ->
+    forall fuel i k p raw q last,
+      repr raw q -> Forall byte_ok last ->
+      exists ts, loop_s sch host serve_s cb_fail c fuel i k p raw last = Some ts /\
+                 let t := loop serve resolve cb_fail c fuel i k (mkUrl p q) last in
+                 st_pages ts = t_pages t /\ st_out ts = t_out t /\
+                 Forall2 same_request (st_reqs ts) (t_reqs t).
+Proof. exact loop_s_refines. Qed.
+Print Assumptions C15_string_loop_refines.
+
+(* exactly once for the loop on strings *)
+Theorem C15_exactly_once_string_loop :
+  forall (sch host : str) (serve_s : nat -> sreq -> response)
+         (L : list item) (cap : nat) (ds : nat -> decision)
+         (render : nat -> url -> url -> str) (trailer : nat -> str)
+         (resolve : url -> str -> option url) (c : cfg) (cu : cursor) (npath : nat -> str -> str) (vis : item -> bool)
+         (path last0 : str) (fuel : nat),
+    cursor_ok cu ->
+    c_kind c <> KReferrers ->
+    NoDup (map fst L) -> (forall it, In it L -> fst it <> []) ->
+    (forall i base x, In x (map fst L) ->
+       contains c_gt (render i base (link_target ds cu npath i base x)) = false) ->
+    (forall i base x, In x (map fst L) ->
+       resolve base (render i base (link_target ds cu npath i base x)) = Some (link_target ds cu npath i base x)) ->
+    (forall i, (Z.of_N (d_doc_len (ds i)) <= eff_limit (c_limit c))%Z) ->
+    (length (after last0 L) < fuel)%nat ->
+    Forall byte_ok last0 ->
+    let serve := reg_serve (c_kind c) cu npath vis L cap ds render trailer in
+    (forall i rs rq, same_request rs rq -> serve_s i rs = serve i rq) ->
+    (forall i rs rq t, same_request rs rq -> parse_link (rs_link (serve i rq)) = LTarget t ->
+       match resolve_ref (mkS sch host (sr_path rs) (sr_query rs)) t, resolve rq t with
+       | ROk u, Some u' => s_path u <> [] /\ s_path u = u_path u' /\ repr (s_query u) (u_query u')
+       | RErr, None => True
+       | _, _ => False
+       end) ->
+    exists ts, loop_s sch host serve_s (fun _ => false) c fuel 0 0 path [] last0 = Some ts /\
+               st_out ts = Done /\ concat (st_pages ts) = filter vis (after last0 L) /\
+               (length (st_reqs ts) <= S (length (after last0 L)))%nat.
+Proof. exact string_loop_exactly_once. Qed.
+Print Assumptions C15_exactly_once_string_loop.
+
+(* the fifth link form, <./seg?q>: relative to the directory of the request path *)
+Theorem C15_next_request_dot_relative :
+  forall c base dirs lastB seg Q trailer,
+    s_path base = c_sl :: join [c_sl] (dirs ++ [lastB]) ->
+    Forall seg_ok dirs -> seg_ok lastB -> seg_ok seg ->
+    forallb path_char seg = true -> forallb query_char Q = true ->
+    link_ok (c_dot :: c_sl :: seg ++ c_qm :: Q) -> contains c_gt (c_dot :: c_sl :: seg ++ c_qm :: Q) = false ->
+    next_request c base (c_lt :: (c_dot :: c_sl :: seg ++ c_qm :: Q) ++ c_gt :: trailer) =
+    NNext (c_sl :: join [c_sl] (dirs ++ [seg])) (request_query c Q []).
+Proof. exact next_request_dot_relative. Qed.
+Print Assumptions C15_next_request_dot_relative.
+
+(* ---------- encoding/json: the first value of a stream (Model/PagingJson.v) ---------- *)
+
+(* a complete bracketed value is self-delimiting: the stream decoder stops at its end whatever
+   follows, and no proper prefix of it is complete *)
+Theorem C15_json_self_delimiting :
+  forall d, scan d = Some (length d) ->
+    (forall tail, first_value (d ++ tail) = Some d) /\
+    (forall k, (k < length d)%nat -> first_value (firstn k d) = None).
+Proof. exact first_value_self_delimiting. Qed.
+Print Assumptions C15_json_self_delimiting.
+
+(* so behind limitReader a document is decoded completely when it fits and not at all when it
+   does not: C15_limit_bytes without its hypothesis, for the bracket scanner *)
+Theorem C15_limit_bytes_scan :
+  forall d pad limit, scan d = Some (length d) ->
+    (Z.of_nat (length (seen limit (d ++ pad))) <= eff_limit limit)%Z /\
+    first_value (seen limit (d ++ pad)) =
+      if (Z.of_nat (length d) <=? eff_limit limit)%Z then Some d else None.
+Proof. exact scan_limit_bytes. Qed.
+Print Assumptions C15_limit_bytes_scan.
+
+Example C15_example_scan :
+  scan (b " {""tags"":[""a}"",""b\""]""]} x") = Some 23%nat /\
+  scan (b " {""tags"":[""a}"",""b\""]""]") = None.
+Proof. vm_compute. split; reflexivity. Qed.
+
+(* the bytes of a metadata answer the client consumes (limitReader, then json.Decoder's buffer
+   refills, as modelled and compared with a counting body on every decoded answer): never more
+   than MaxMetadataBytes, never more than the body, at least the document when it fits *)
+Theorem C15_bytes_consumed :
+  forall limit docend total,
+    (Z.of_N (consumed_of limit docend total) <= eff_limit limit)%Z /\
+    consumed_of limit docend total <= total /\
+    (docend <= total -> (Z.of_N docend <= eff_limit limit)%Z -> docend <= consumed_of limit docend total).
+Proof. exact consumed_of_spec. Qed.
+Print Assumptions C15_bytes_consumed.
+
+(* the index of the referrers tag schema: refused unread when over the limit, else read whole *)
+Theorem C15_bytes_consumed_index :
+  forall limit size,
+    (Z.of_N (consumed_index limit size) <= eff_limit limit)%Z /\ consumed_index limit size <= size.
+Proof. exact consumed_index_spec. Qed.
+Print Assumptions C15_bytes_consumed_index.
+
+(* the refinement with an invariant of the request paths (weaker hypotheses: only requests whose
+   path satisfies InvP need to be answered alike / resolved alike) *)
+Theorem C15_string_loop_refines_inv :
+  forall (sch host : str) (serve_s : nat -> sreq -> response) (serve : nat -> url -> response)
+         (resolve : url -> str -> option url) (cb_fail : nat -> bool) (c : cfg) (InvP : str -> Prop),
+    (forall i rs rq, InvP (sr_path rs) -> same_request rs rq -> serve_s i rs = serve i rq) ->
+    (forall i rs rq t,
+       InvP (sr_path rs) -> same_request rs rq -> parse_link (rs_link (serve i rq)) = LTarget t ->
+       match resolve_ref (mkS sch host (sr_path rs) (sr_query rs)) t, resolve rq t with
+       | ROk u, Some u' => s_path u <> [] /\ s_path u = u_path u' /\ repr (s_query u) (u_query u') /\ InvP (s_path u)
+       | RErr, None => True
+       | _, _ => False
+       end) ->
+    forall fuel i k p raw q last,
+      InvP p -> repr raw q -> Forall byte_ok last ->
+      exists ts, loop_s sch host serve_s cb_fail c fuel i k p raw last = Some ts /\
+                 let t := loop serve resolve cb_fail c fuel i k (mkUrl p q) last in
+                 st_pages ts = t_pages t /\ st_out ts = t_out t /\
+                 Forall2 same_request (st_reqs ts) (t_reqs t).
+Proof. exact loop_s_refines_inv. Qed.
+Print Assumptions C15_string_loop_refines_inv.
+
+(* its hypotheses are satisfiable: a two-page registry with a query-only link *)
+Example C15_example_refinement_hypotheses :
+  (forall i rs rq, exs_inv (sr_path rs) -> same_request rs rq -> exs_serve_s i rs = exs_serve i rq) /\
+  (forall i rs rq t,
+     exs_inv (sr_path rs) -> same_request rs rq -> parse_link (rs_link (exs_serve i rq)) = LTarget t ->
+     match resolve_ref (mkS (b "http") (b "reg.test") (sr_path rs) (sr_query rs)) t, exs_resolve rq t with
+     | ROk u, Some u' => s_path u <> [] /\ s_path u = u_path u' /\ repr (s_query u) (u_query u') /\ exs_inv (s_path u)
+     | RErr, None => True
+     | _, _ => False
+     end).
+Proof. exact example_refinement_hypotheses. Qed.
+
+Example C15_example_string_loop :
+  loop_s (b "http") (b "reg.test") exs_serve_s (fun _ => false) (mkCfg KTags 2 0 []) 5 0 0 exs_path [] []
+  = Some (mkST [mkSR exs_path (b "n=2"); mkSR exs_path (b "last=a&n=2")] [[(b "a", [])]; [(b "b", [])]] Done).
+Proof. vm_compute. reflexivity. Qed.
+
+(* registry.Tags / registry.Repositories: the whole list the registry shows, once, in order *)
+Theorem C15_collect_all :
+  forall (L : list item) (cap : nat) (ds : nat -> decision)
+         (render : nat -> url -> url -> str) (trailer : nat -> str)
+         (resolve : url -> str -> option url) (c : cfg) (cu : cursor) (npath : nat -> str -> str) (vis : item -> bool)
+         (path : str) (fuel : nat),
+    cursor_ok cu ->
+    c_kind c <> KReferrers ->
+    NoDup (map fst L) -> (forall it, In it L -> fst it <> []) ->
+    (forall i base x, In x (map fst L) ->
+       contains c_gt (render i base (link_target ds cu npath i base x)) = false) ->
+    (forall i base x, In x (map fst L) ->
+       resolve base (render i base (link_target ds cu npath i base x)) = Some (link_target ds cu npath i base x)) ->
+    (forall i, (Z.of_N (d_doc_len (ds i)) <= eff_limit (c_limit c))%Z) ->
+    (length L < fuel)%nat ->
+    collect_all (loop (reg_serve (c_kind c) cu npath vis L cap ds render trailer) resolve (fun _ => false) c
+                      fuel 0 0 (mkUrl path []) []) = (Done, filter vis L).
+Proof. exact collect_all_listing. Qed.
+Print Assumptions C15_collect_all.
+
+(* registry.Referrers / Repository.Predecessors *)
+Theorem C15_collect_all_referrers :
+  forall (L : list item) (cap : nat) (ds : nat -> decision)
+         (render : nat -> url -> url -> str) (trailer : nat -> str)
+         (resolve : url -> str -> option url) (c : cfg) (cu : cursor) (npath : nat -> str -> str) (vis : item -> bool)
+         (path : str) (fuel : nat),
+    cursor_ok cu ->
+    c_kind c = KReferrers ->
+    NoDup (map fst L) -> (forall it, In it L -> fst it <> []) ->
+    (forall i base x, In x (map fst L) ->
+       contains c_gt (render i base (link_target ds cu npath i base x)) = false) ->
+    (forall i base x, In x (map fst L) ->
+       resolve base (render i base (link_target ds cu npath i base x)) = Some (link_target ds cu npath i base x)) ->
+    (forall i, (Z.of_N (d_doc_len (ds i)) <= eff_limit (c_limit c))%Z) ->
+    (forall i, qget k_at (d_extra (ds i)) = None) ->
+    (length L < fuel)%nat ->
+    collect_all (loop (reg_serve KReferrers cu npath vis L cap ds render trailer) resolve (fun _ => false) c
+                      fuel 0 0 (mkUrl path (referrers_query (c_at c))) []) =
+    (Done, filter_referrers (filter vis L) (c_at c)).
+Proof. exact collect_all_referrers. Qed.
+Print Assumptions C15_collect_all_referrers.
+
+(* the decoder behind limitReader succeeds exactly when the first value of the body ends within
+   the limit, and then yields the whole value: body_fits (document length <= limit) of the
+   listing model is what the scanner-decoder does on the bytes *)
+Theorem C15_decoder_behind_limit :
+  forall body limit,
+    first_value (seen limit body) =
+    match scan body with
+    | Some m => if (Z.of_nat m <=? eff_limit limit)%Z then Some (firstn m body) else None
+    | None => None
+    end.
+Proof. exact scan_behind_limit. Qed.
+Print Assumptions C15_decoder_behind_limit.
+
+(* known finding link-rel-ignored, on the string level *)
+Theorem C15_link_rel_first_string_refuted :
+  exists header,
+    let base := mkS (b "http") (b "reg.test") (b "/v2/r/tags/list") (b "last=a") in
+    (exists pre, header = pre ++ b "<?last=b>; rel=""next""") /\
+    next_request (mkCfg KTags 0 0 []) base header = NNext (b "/v2/r/tags/list") [] /\
+    next_request (mkCfg KTags 0 0 []) base (b "<?last=b>; rel=""next""") = NNext (b "/v2/r/tags/list") (b "last=b").
+Proof. exact link_rel_first_string_refuted. Qed.
+Print Assumptions C15_link_rel_first_string_refuted.
+
+(* exactly once with the link hypotheses only for requests satisfying an invariant *)
+Theorem C15_exactly_once_inv :
+  forall (L : list item) (cap : nat) (ds : nat -> decision)
+         (render : nat -> url -> url -> str) (trailer : nat -> str)
+         (resolve : url -> str -> option url) (c : cfg) (cu : cursor) (npath : nat -> str -> str) (vis : item -> bool)
+         (InvQ : url -> Prop) (path last0 : str) (fuel : nat),
+    cursor_ok cu ->
+    c_kind c <> KReferrers ->
+    NoDup (map fst L) -> (forall it, In it L -> fst it <> []) ->
+    (forall i base x, InvQ base -> In x (map fst L) ->
+       contains c_gt (render i base (link_target ds cu npath i base x)) = false) ->
+    (forall i base x, InvQ base -> In x (map fst L) ->
+       resolve base (render i base (link_target ds cu npath i base x)) = Some (link_target ds cu npath i base x)) ->
+    (forall i base x, InvQ base -> In x (map fst L) ->
+       InvQ (mk_request c (link_target ds cu npath i base x) [])) ->
+    InvQ (mk_request c (mkUrl path []) last0) ->
+    (forall i, (Z.of_N (d_doc_len (ds i)) <= eff_limit (c_limit c))%Z) ->
+    (length (after last0 L) < fuel)%nat ->
+    let t := loop (reg_serve (c_kind c) cu npath vis L cap ds render trailer) resolve (fun _ => false) c
+                  fuel 0 0 (mkUrl path []) last0 in
+    t_out t = Done /\
+    concat (t_pages t) = filter vis (after last0 L) /\
+    (length (t_reqs t) <= S (length (after last0 L)))%nat.
+Proof. exact listing_exactly_once_inv. Qed.
+Print Assumptions C15_exactly_once_inv.
+
+(* EXACTLY ONCE WITHOUT ABSTRACT net/url: a registry that writes its next links as
+   </path?escaped query> (render_c), the client resolving them with net/url as modelled in
+   Model/PagingUrl.v (resolve_c = resolve_ref + lenient query reading, n read as a number), any page size:
+   Tags / Repositories deliver exactly what the registry shows after `last`, once, in order --
+   for every list, split oracle, cap, cursor kind (last or opaque token), shown subset, extra
+   link parameters and start value.  No hypothesis about rendering or resolution is left. *)
+Theorem C15_exactly_once_concrete :
+  forall (sch host P0 : str) (segs0 : list str),
+    clean_path P0 segs0 ->
+    forallb path_char P0 = true ->
+    forallb printable P0 = true ->
+    forall (L : list item) (cap : nat) (ds : nat -> decision)
+           (trailer : nat -> str) (vis : item -> bool) (cu : cursor) (c : cfg),
+    cursor_ok cu ->
+    match cu with
+    | CLast => True
+    | CToken k s => Forall byte_ok k /\ Forall byte_ok s
+    end ->
+    (forall x : str, In x (map fst L) -> Forall byte_ok x) ->
+    (forall i : nat, all_vs (d_extra (ds i)) /\ query_ok (d_extra (ds i))) ->
+    (c_n c < 10 ^ 40)%Z ->
+    forall (last0 : list N) (fuel : nat),
+    c_kind c <> KReferrers ->
+    NoDup (map fst L) ->
+    (forall it : item, In it L -> fst it <> []) ->
+    Forall byte_ok last0 ->
+    (forall i : nat, (Z.of_N (d_doc_len (ds i)) <= eff_limit (c_limit c))%Z) ->
+    (length (after last0 L) < fuel)%nat ->
+    let t := loop (reg_serve (c_kind c) cu (fun _ p => p) vis L cap ds render_c trailer) (resolve_c sch host)
+                  (fun _ => false) c fuel 0 0 (mkUrl P0 []) last0 in
+    t_out t = Done /\
+    concat (t_pages t) = filter vis (after last0 L) /\
+    (length (t_reqs t) <= S (length (after last0 L)))%nat.
+Proof. exact concrete_exactly_once. Qed.
+Print Assumptions C15_exactly_once_concrete.
+
+Example C15_example_concrete :
+  let t := loop (reg_serve KTags (CToken (b "token") (b "p;")) (fun _ p => p) ex_vis ex_L 1 ex_ds render_c (fun _ => b "; rel=""next"""))
+                (resolve_c (b "http") (b "reg.test")) (fun _ => false) (mkCfg KTags 7 0 []) 6 0 0 (mkUrl exs_path []) (b "a") in
+  t_out t = Done /\ map (map fst) (t_pages t) = [[b "b"]; []; [b "d"]] /\
+  map (fun u => qget (b "token") (u_query u)) (t_reqs t) = [None; Some (VS (b "p;b")); Some (VS (b "p;c"))] /\
+  map (fun u => qget k_n (u_query u)) (t_reqs t) = [Some (VN 7); Some (VN 7); Some (VN 7)].
+Proof. vm_compute. repeat split. Qed.
+
+(* strconv.Itoa / Atoi as modelled: reading back what was written *)
+Theorem C15_atoi_itoa : forall n, n < 10 ^ 40 -> atoi (itoa n) = Some n.
+Proof. exact atoi_itoa. Qed.
+Print Assumptions C15_atoi_itoa.
+
+(* the same for Referrers (C15_filter with net/url as modelled): the referrers of the requested
+   artifact type, once, in order, whether or not the registry filters *)
+Theorem C15_filter_concrete :
+  forall (sch host P0 : str) (segs0 : list str),
+    clean_path P0 segs0 ->
+    forallb path_char P0 = true ->
+    forallb printable P0 = true ->
+    forall (L : list item) (cap : nat) (ds : nat -> decision)
+           (trailer : nat -> str) (vis : item -> bool) (cu : cursor) (c : cfg),
+    cursor_ok cu ->
+    match cu with
+    | CLast => True
+    | CToken k s => Forall byte_ok k /\ Forall byte_ok s
+    end ->
+    (forall x : str, In x (map fst L) -> Forall byte_ok x) ->
+    (forall i : nat, all_vs (d_extra (ds i)) /\ query_ok (d_extra (ds i))) ->
+    (c_n c < 10 ^ 40)%Z ->
+    forall fuel : nat,
+    c_kind c = KReferrers ->
+    NoDup (map fst L) ->
+    (forall it : item, In it L -> fst it <> []) ->
+    Forall byte_ok (c_at c) ->
+    (forall i : nat, (Z.of_N (d_doc_len (ds i)) <= eff_limit (c_limit c))%Z) ->
+    (forall i : nat, qget k_at (d_extra (ds i)) = None) ->
+    (length L < fuel)%nat ->
+    let t := loop (reg_serve KReferrers cu (fun _ p => p) vis L cap ds render_c trailer) (resolve_c sch host)
+                  (fun _ => false) c fuel 0 0 (mkUrl P0 (referrers_query (c_at c))) [] in
+    t_out t = Done /\
+    concat (t_pages t) = filter_referrers (filter vis L) (c_at c) /\
+    (length (t_reqs t) <= S (length L))%nat.
+Proof. exact concrete_referrers. Qed.
+Print Assumptions C15_filter_concrete.
